@@ -36,9 +36,11 @@ RULE = (
     'addresses and live distinct handles; disconnection reported to both and tables emptied; advertising and '
     'scan-response data byte for byte). non-trivial = (>=3 devices or a public own-address or extended '
     'advertising or an overlapping connect) and at least one payload transferred or a scan; distinct by history. '
-    'Family "overlaps": same histories with per-device HCI delays and additional operations: connect with other '
+    'Family "largest": PDUs of 65531..65535 payload bytes (the ACL PDU no longer fits one HCI ACL packet) both '
+    'ways over LE and BR/EDR. Family "overlaps": same histories with per-device HCI delays and additional operations: connect with other '
     'devices (possibly the initiator too, public or random own address) advertising while the connect is pending '
-    'and a PDU sent by the central the moment connect() returns / by the peripheral from its connection event; '
+    'and a PDU sent by the central the moment connect() returns / by either end from inside its own connection '
+    'event, with the host attached to the controller through a pipe or directly (host.controller = controller); '
     'miss = connect to an address that is not advertised at that moment (other own-address type of an advertising '
     'peer, a silent peer among advertising bystanders, an unowned BD_ADDR over BR/EDR): nobody may get a '
     'connection; multi = two connects in flight at once (same advertiser, distinct advertisers, chain through a '
@@ -122,7 +124,7 @@ def ops_strategy_overlaps(n):
     pair = st.tuples(dev, dev).filter(lambda p: p[0] != p[1])
 
     def connect():
-        return st.tuples(st.just('connect'), pair, st.booleans(), st.booleans(), st.integers(0, 255), st.integers(0, 3))
+        return st.tuples(st.just('connect'), pair, st.booleans(), st.booleans(), st.integers(0, 255), st.integers(0, 7))
 
     def burst():
         return st.tuples(
@@ -140,7 +142,7 @@ def ops_strategy_overlaps(n):
         burst(), burst(),
         st.tuples(st.just('miss'), pair, st.integers(0, 3), st.integers(0, 15)),
         st.tuples(st.just('miss'), pair, st.integers(0, 3), st.integers(1, 15)),
-        st.tuples(st.just('classic'), pair, st.integers(0, 3)),
+        st.tuples(st.just('classic'), pair, st.integers(0, 7)),
         st.tuples(st.just('advset'), pair, st.booleans()),
         st.tuples(st.just('cross'), st.permutations(range(n)).map(lambda p: tuple(p[:3])), st.booleans()) if n >= 3 else connect(),
         st.tuples(st.just('send'), st.integers(0, 5), st.integers(0, 1), st.integers(1, 60)),
@@ -165,8 +167,30 @@ def case_strategy_overlaps():
                 'delays': st.one_of(st.just([]), st.lists(delay, min_size=n, max_size=n)),
                 'order': st.permutations(range(n)).map(list),
                 'ops': ops_strategy_overlaps(n),
+                # hosts attached to their controller the way `host.controller = controller` does (what the host sends
+                # reaches the controller synchronously), instead of through a pipe with one more hop
+                'direct': st.booleans(),
             }
         )
+    )
+
+
+def case_strategy_largest():
+    """The largest L2CAP PDUs the 16-bit length field allows (payload 65531..65535: the ACL PDU with its 4-byte
+    header is 65535..65539 bytes and no longer fits one HCI ACL packet), both transports, both directions."""
+    size = st.sampled_from([65528, 65529, 65530, 65531, 65532, 65532, 65500])  # the 'send' op adds a 3-byte header
+    send = st.tuples(st.just('send'), st.integers(0, 1), st.integers(0, 1), size)
+    small = st.tuples(st.just('send'), st.integers(0, 1), st.integers(0, 1), st.integers(1, 60))
+    link = st.one_of(st.tuples(st.just('connect'), st.sampled_from([(0, 1), (1, 0)]), st.booleans(), st.booleans()),
+                     st.tuples(st.just('classic'), st.sampled_from([(0, 1), (1, 0)])))
+    return st.fixed_dictionaries(
+        {
+            'n': st.just(2),
+            'ext': st.lists(st.booleans(), min_size=2, max_size=2),
+            'delays': st.lists(st.sampled_from([0, 0, 2]), max_size=2),
+            'order': st.just([0, 1]),
+            'ops': st.tuples(link, send, small, send, link, send, small).map(list),
+        }
     )
 
 
@@ -196,10 +220,14 @@ def run_case(ctx, case) -> None:
     delay_sum = sum(sum(d) for d in delays) if per_device else sum(delays or [0])
     if per_device:
         labels.add('per_device_delays')
+    if case.get('direct'):
+        labels.add('host_attached_directly')
+        if not delay_sum:
+            labels.add('host_attached_directly_no_delay')
 
     async def main():
         w = world.World(n, delays=[list(d) for d in delays] if per_device else delays, classic=True,
-                        link_order=case['order'])
+                        link_order=case['order'], direct=bool(case.get('direct')))
         for i, node in enumerate(w.nodes):
             feat = int(node.controller.le_features)
             if case['ext'][i]:
@@ -316,6 +344,15 @@ def run_case(ctx, case) -> None:
                     c.send_l2cap_pdu(CID, payload)
 
                 w[j].device.once('connection', hook)
+            if eager & 4:
+                # bit 2: the initiating side writes a PDU from inside its own 'connection' event (before connect()
+                # has returned to its caller)
+                def hook_c(c):
+                    payload = next_payload((i, j), 0xE4)
+                    sent['c2p_event'] = payload
+                    c.send_l2cap_pdu(CID, payload)
+
+                w[i].device.once('connection', hook_c)
 
         def eager_central(i, j, ca, eager, sent):
             """bit 0: the initiator writes a PDU the moment connect() has returned (no loop iteration in between)."""
@@ -327,6 +364,8 @@ def run_case(ctx, case) -> None:
         def check_eager(rec, sent, imark):
             i, j = rec['a'], rec['b']
             want = {d: [] for d in range(n)}
+            if 'c2p_event' in sent:
+                want[j].append((rec['cb'].handle, sent['c2p_event']))
             if 'c2p' in sent:
                 want[j].append((rec['cb'].handle, sent['c2p']))
             if 'p2c' in sent:
@@ -335,6 +374,8 @@ def run_case(ctx, case) -> None:
                 got = inbox[d][imark[d]:]
                 if got != want[d]:
                     which = 'misrouted' if d not in (i, j) else ('c2p' if d == j else 'p2c')
+                    if which == 'c2p' and 'c2p_event' in sent and (rec['cb'].handle, sent['c2p_event']) not in got:
+                        which = 'c2p_from_connection_event'
                     fail(f'delivery/right_after_connect/{rec["transport"].name}/{which}',
                          f'PDU(s) written the moment the connection {i}->{j} was reported: device {d} received '
                          f'{[(h, p.hex()) for h, p in got]}, expected {[(h, p.hex()) for h, p in want[d]]}')
@@ -716,6 +757,8 @@ def run_case(ctx, case) -> None:
                         fail('delivery/misrouted', f'payload for {rcv} also/instead delivered to device {d}')
                 state['moved'] += 1
                 labels.add('payload')
+                if len(payload) + 4 > 0xFFFF:
+                    labels.add(f'payload_acl_pdu_over_65535:{c["transport"].name}')
             elif kind == 'disc':
                 live = [c for c in conns if c['alive']]
                 if not live:
@@ -904,6 +947,9 @@ def run(ctx) -> None:
     vloop.selftest()
     ctx.hyp('histories', lambda c: run_case(ctx, c), case_strategy(), max_examples=ctx.n(1400, 30000))
     ctx.hyp('overlaps', lambda c: run_case(ctx, c), case_strategy_overlaps(), max_examples=ctx.n(450, 12000))
+    ctx.hyp('largest', lambda c: run_case(ctx, c), case_strategy_largest(), max_examples=ctx.n(24, 640))
+    for label in ('payload_acl_pdu_over_65535:LE', 'payload_acl_pdu_over_65535:BR_EDR'):
+        ctx.floor(label, 4)
     for label in ('le_connect', 'classic_connect', 'public_own_address', 'extended_advertising',
                   'overlapping_connect', 'payload', 'disconnect_by_central', 'disconnect_by_peripheral',
                   'scan_active', 'scan_passive', 'devices:4', 'scanner_also_advertises',
@@ -913,6 +959,7 @@ def run(ctx) -> None:
     for label in ('connect_among_advertisers', 'initiator_also_advertises', 'bystander_public_address',
                   'payload_right_after_connect:LE:c2p', 'payload_right_after_connect:LE:p2c',
                   'payload_right_after_connect:BR_EDR:c2p', 'payload_right_after_connect:BR_EDR:p2c',
+                  'payload_right_after_connect:LE:c2p_event', 'payload_right_after_connect:BR_EDR:c2p_event',
                   'connect_address_not_advertised:other_address_type_public_advertised',
                   'connect_address_not_advertised:other_address_type_random_advertised',
                   'connect_address_not_advertised:silent_peer', 'connect_address_not_advertised:unowned_bd_addr',
@@ -920,7 +967,7 @@ def run(ctx) -> None:
                   'concurrent_connects:same_advertiser', 'concurrent_connects:chain',
                   'concurrent_connects:distinct_advertisers',
                   'burst_several_connections', 'burst_both_directions', 'burst_fragmented_pdu',
-                  'disconnect_by_both_ends', 'per_device_delays',
+                  'disconnect_by_both_ends', 'per_device_delays', 'host_attached_directly', 'host_attached_directly_no_delay',
                   'advertising_data_31_bytes', 'advertising_data_empty'):
         ctx.floor(label, 5)
 
